@@ -62,6 +62,8 @@ class LogRun(object):
         self.refused = False
         self.msgdir = os.path.join(root, PEER.lower(), 'msg')
         self.huge = False
+        self.fine_clock = False
+        self.nclock = 0
 
     # ------------------------------------------------------------ actions
     def restart(self):
@@ -78,7 +80,13 @@ class LogRun(object):
 
     def _call(self, kind, rot):
         h, p = self.h, self.peer
-        W.now += 1.0
+        # the wall clock: whole seconds in most histories; in every fifth one it moves in uneven steps that put events
+        # (and with them the creation of files) at the very end and the very beginning of a second
+        if self.fine_clock:
+            W.now += (0.2, 0.2999997, 0.0000002, 0.0000001, 0.5, 0.4999998, 1.0)[self.nclock % 7]
+            self.nclock += 1
+        else:
+            W.now += 1.0
         ts = 1.7e9 + W.now
         CONF.set_override('write_msg_max_size', 1 if rot else 10 ** 12, group='message')
         if kind == 'update':
@@ -209,6 +217,9 @@ def replay_walk(g, walk, tid, frac):
         W.now = 0.0
         r = LogRun(root)
         r.huge = (tid % 4 == 1)
+        r.fine_clock = (tid % 5 == 2)
+        if r.fine_clock:
+            W.now = 0.5
         lines = [{'tid': tid, 'i': 0, 'k': 'begin', 'kind': '', 'cut': ''}]
         drift = None
         i = 0
@@ -234,7 +245,8 @@ def replay_walk(g, walk, tid, frac):
             i += 1
             disk, badkeys = r.parse()
             lines.append({'tid': tid, 'i': i, 'k': k, 'kind': ev['kind'], 'cut': ev['cut'], 'disk': disk, 'running': r.h is not None,
-                          'refused': r.refused, 'badkeys': badkeys, 'exc': r.exc})
+                          'refused': r.refused, 'badkeys': badkeys, 'exc': r.exc,
+                          'files': sorted(os.listdir(r.msgdir)) if os.path.isdir(r.msgdir) else []})
             if drift is None:
                 md = obs['disk']
                 norm = [[{'ps': [{'seq': p['seq'], 'full': p['full']} for p in ln['ps']], 'nl': ln['nl']} for ln in f] for f in md]
